@@ -36,6 +36,7 @@ type c10SharedCase struct {
 	OK         int     `json:"ok"`         // number of complete roots afterwards
 	Standalone []int   `json:"standalone"` // type objects whose own Check() is called before the first root
 	Between    bool    `json:"between"`    // type objects' Example()/GetAST() called between roots
+	Dup        bool    `json:"dup"`        // after registration every root also tries to register another object under a taken name (refused)
 }
 
 // c10SharedObjs builds the shared objects of a project.
@@ -58,7 +59,7 @@ func c10SharedObjs(pt project) (types []schema.Schema, rules []*enum.Enum) {
 }
 
 // c10SharedRoot registers the objects (without the dropped ones) in a new root and renders everything observable.
-func c10SharedRoot(pt project, types []schema.Schema, rules []*enum.Enum, drop map[int]bool) (digest string, p *mon.Panic) {
+func c10SharedRoot(pt project, types []schema.Schema, rules []*enum.Enum, drop map[int]bool, dup bool) (digest string, p *mon.Panic) {
 	var sb strings.Builder
 	p = mon.Guard(func() {
 		s := jschema.New("root", pt.Root)
@@ -73,6 +74,21 @@ func c10SharedRoot(pt project, types []schema.Schema, rules []*enum.Enum, drop m
 			}
 			if err := s.AddType(t.Name, types[i]); err != nil {
 				fmt.Fprintf(&sb, "AddType %s: %s\n", t.Name, c10ErrText(err))
+			}
+		}
+		if dup {
+			// a second registration under a name that is taken is refused and must leave the first one in place
+			for i, t := range pt.Types {
+				if drop[i] {
+					continue
+				}
+				var other schema.Schema = jschema.New(t.Name, `{"dupA": 1, "dupB": "x"}`)
+				if i%2 == 1 && len(types) > 1 {
+					other = types[(i+1)%len(types)]
+				}
+				if err := s.AddType(t.Name, other); err == nil {
+					fmt.Fprintf(&sb, "a second AddType %s was accepted\n", t.Name)
+				}
 			}
 		}
 		err := s.Check()
@@ -90,6 +106,17 @@ func c10SharedRoot(pt project, types []schema.Schema, rules []*enum.Enum, drop m
 		if pn := mon.Guard(func() {
 			ob, oerr := openapi.NewSchemaObject(s).MarshalJSON()
 			fmt.Fprintf(&sb, "OpenAPI: %s %s\n", ob, c10ErrText(oerr))
+			for _, inf := range openapi.Dereference(s) {
+				db, _ := inf.SchemaObject().MarshalJSON()
+				fmt.Fprintf(&sb, "Deref: %s", db)
+				if oi, ok := inf.(openapi.ObjectInformer); ok {
+					for _, pi := range oi.PropertiesInfos() {
+						pb, _ := pi.SchemaObject().MarshalJSON()
+						fmt.Fprintf(&sb, " [%s optional=%v %s]", pi.Key(), pi.Optional(), pb)
+					}
+				}
+				sb.WriteByte('\n')
+			}
 		}); pn != nil {
 			fmt.Fprintf(&sb, "OpenAPI: panic %s\n", pn.Value)
 		}
@@ -118,9 +145,9 @@ func c10SharedOne(r *mon.Run, cs c10SharedCase) {
 	none := map[int]bool{}
 	// what fresh objects answer
 	ft, fr := c10SharedObjs(pt)
-	wantOK, p1 := c10SharedRoot(pt, ft, fr, none)
+	wantOK, p1 := c10SharedRoot(pt, ft, fr, none, false)
 	ft, fr = c10SharedObjs(pt)
-	wantFail, p2 := c10SharedRoot(pt, ft, fr, drop)
+	wantFail, p2 := c10SharedRoot(pt, ft, fr, drop, false)
 	if p1 != nil || p2 != nil {
 		r.Count("shared_types:fresh_objects_panic_(C02's_subject)", 1)
 		return
@@ -147,7 +174,7 @@ func c10SharedOne(r *mon.Run, cs c10SharedCase) {
 	}
 	step := 0
 	for i := 0; i < cs.Fail; i++ {
-		got, p := c10SharedRoot(pt, types, rules, drop)
+		got, p := c10SharedRoot(pt, types, rules, drop, cs.Dup)
 		step++
 		if p != nil {
 			r.Violate("panic", key("root "+fmt.Sprint(step)+" "+p.Site), "a root over shared type objects panicked: "+p.Value, cs)
@@ -162,7 +189,7 @@ func c10SharedOne(r *mon.Run, cs c10SharedCase) {
 		}
 	}
 	for i := 0; i < cs.OK; i++ {
-		got, p := c10SharedRoot(pt, types, rules, none)
+		got, p := c10SharedRoot(pt, types, rules, none, cs.Dup)
 		step++
 		if p != nil {
 			r.Violate("panic", key("root "+fmt.Sprint(step)+" "+p.Site), "a root over shared type objects panicked: "+p.Value, cs)
@@ -176,9 +203,46 @@ func c10SharedOne(r *mon.Run, cs c10SharedCase) {
 			c10SharedTouch(types)
 		}
 	}
+	// the texts of the shared objects are still what they were: Len() of every type and rule object, asked now,
+	// is what a fresh object over the same text answers
+	freshT, freshR := c10SharedObjs(pt)
+	lens := func(ts []schema.Schema, rs []*enum.Enum) string {
+		var sb strings.Builder
+		for i, t := range ts {
+			t := t
+			mon.Guard(func() {
+				n, err := t.Len()
+				fmt.Fprintf(&sb, "%s Len=%d %s; ", pt.Types[i].Name, n, c10ErrText(err))
+			})
+		}
+		for i, t := range ts { // and the text itself, byte for byte
+			switch tt := t.(type) {
+			case *jschema.JSchema:
+				if got := string(tt.File.Content().Data()); got != pt.Types[i].Text {
+					fmt.Fprintf(&sb, "%s text is now %q; ", pt.Types[i].Name, got)
+				}
+			case *regex.RSchema:
+				if got := string(tt.File.Content().Data()); got != pt.Types[i].Text {
+					fmt.Fprintf(&sb, "%s text is now %q; ", pt.Types[i].Name, got)
+				}
+			}
+		}
+		for i, e := range rs {
+			e := e
+			mon.Guard(func() {
+				n, err := e.Len()
+				fmt.Fprintf(&sb, "%s Len=%d %s; ", pt.Rules[i].Name, n, c10ErrText(err))
+			})
+		}
+		return sb.String()
+	}
+	if want, got := lens(freshT, freshR), lens(types, rules); want != got {
+		r.Violate("mutated-after-return", key("text of a shared object"), fmt.Sprintf("after %d roots, Len() of the shared type / rule objects differs from fresh objects over the same texts: %s", step, c07FirstDiff(want, got)), cs)
+		return
+	}
 	r.Count("shared_types:histories_consistent", 1)
 	r.Count("shared_types:roots_compared_with_fresh_objects", int64(step))
-	r.Nontrivial("shared", projectKey(pt), fmt.Sprint(cs.Drop, cs.Fail, cs.OK, cs.Standalone, cs.Between))
+	r.Nontrivial("shared", projectKey(pt), fmt.Sprint(cs.Drop, cs.Fail, cs.OK, cs.Standalone, cs.Between, cs.Dup))
 }
 
 // c10SharedTouch reads from the shared type objects between two roots.
@@ -234,7 +298,7 @@ func c10SharedRun(r *mon.Run) {
 			}
 		}
 		for _, d := range drops {
-			cs := c10SharedCase{Kind: "shared-types", Project: pt, Drop: d, Fail: 1 + rr.IntN(2), OK: 1 + rr.IntN(3), Between: rr.IntN(3) == 0}
+			cs := c10SharedCase{Kind: "shared-types", Project: pt, Drop: d, Fail: 1 + rr.IntN(2), OK: 1 + rr.IntN(3), Between: rr.IntN(3) == 0, Dup: rr.IntN(3) == 0}
 			if rr.IntN(4) == 0 {
 				cs.Standalone = []int{rr.IntN(n)}
 			}
